@@ -350,6 +350,18 @@ Example c17_price_nonvacuous :
   /\ price_request (run init ex_history) 421 9 = (400, 0).
 Proof. repeat split; vm_compute; reflexivity. Qed.
 
+(** ** 9. feed genesis: importing the exported values of a feed (newest first, at most
+    latest-history of them) restores exactly those values in that order, under keys not above
+    max(batch counter, n - 1), so the context's next batch is newer than all of them.
+    (InitGenesis is not reachable by messages; pure function, see ProofsList.v.) *)
+Theorem genesis_import_restores_values :
+  forall (bc lh : Z) (vals : list fval),
+    1 <= lh -> Z.of_nat (length vals) <= lh ->
+    newest_first (genesis_import bc lh vals) = vals
+    /\ keys_below (Z.max bc (Z.of_nat (length vals) - 1) + 1) (genesis_import bc lh vals).
+Proof. exact genesis_import_restores. Qed.
+Print Assumptions genesis_import_restores_values.
+
 (** ** 7. the hypothesis [run_wfb], derived from the service group's model
 
     [run_wfb] ("the response callback arrives only while the context's batch is running") was a
